@@ -119,9 +119,11 @@ Section WithHash.
   Lemma all_comparable_In items a b : all_comparable hs items = true -> In a items -> In b items ->
     exists t, cmp LT (fst a) (fst b) = Ok t.
   Proof.
-    intros H Ha Hb. unfold all_comparable in H. rewrite forallb_forall in H.
-    pose proof (H a Ha) as H1. rewrite forallb_forall in H1. pose proof (H1 b Hb) as H2.
-    unfold less_fails in H2. destruct (cmp LT (fst a) (fst b)) as [t| |]; try discriminate. exists t. reflexivity.
+    intros H Ha Hb. unfold all_comparable in H.
+    pose proof (forallb_In _ _ _ H Ha) as H1. cbv beta in H1.
+    pose proof (forallb_In _ _ _ H1 Hb) as H2. cbv beta in H2.
+    apply negb_true_iff in H2. revert H2. unfold less_fails.
+    generalize (cmp LT (fst a) (fst b)). intros [t| |] H2; try discriminate. exists t. reflexivity.
   Qed.
 
   (* under comparability: an ordered outcome, and less reads it *)
@@ -131,14 +133,14 @@ Section WithHash.
   Proof.
     intros K C Ha Hb. destruct (all_comparable_In items a b C Ha Hb) as [t Ht].
     destruct (cmp_spec hs (fst a) (fst b) (K a Ha) (K b Hb)) as [o [E A]].
-    exists o. split; [exact E|]. unfold less. rewrite A in *. destruct o; simpl in *; try discriminate; split; reflexivity.
+    exists o. split; [exact E|]. unfold less. rewrite A in Ht. rewrite A. clear E A. destruct o; try discriminate Ht; split; reflexivity.
   Qed.
 
   Lemma less_swo items : keys_ok items -> all_comparable hs items = true -> swo_on item (less hs) items.
   Proof.
-    intros K C. destruct (laws CompareLimit) as [LR [LF [LC LT']]]. repeat split.
+    intros K C. destruct (laws CompareLimit) as [LR [LF [LC LT']]]. split; [|split].
     - intros a Ha. destruct (less_char items a a K C Ha Ha) as [o [E [O L]]]. rewrite L.
-      pose proof (LR (fst a) (K a Ha)) as R. rewrite E in R. simpl in R. destruct o; try discriminate; reflexivity.
+      pose proof (LR (fst a) (K a Ha)) as R. rewrite E in R. cbn [oequal] in R. clear E. destruct o; try discriminate; reflexivity.
     - intros a b c Ha Hb Hc H1 H2.
       destruct (less_char items a b K C Ha Hb) as [o1 [E1 [O1 L1]]].
       destruct (less_char items b c K C Hb Hc) as [o2 [E2 [O2 L2]]].
@@ -153,12 +155,12 @@ Section WithHash.
       destruct (less_char items c b K C Hc Hb) as [o2' [E2' [O2' L2']]].
       destruct (less_char items a c K C Ha Hc) as [o3 [E3 [O3 L3]]].
       destruct (less_char items c a K C Hc Ha) as [o3' [E3' [O3' L3']]].
-      pose proof (LF (fst a) (fst b) (K a Ha) (K b Hb)) as F1. rewrite E1, E1' in F1. simpl in F1. inversion F1; subst o1'.
-      pose proof (LF (fst b) (fst c) (K b Hb) (K c Hc)) as F2. rewrite E2, E2' in F2. simpl in F2. inversion F2; subst o2'.
-      pose proof (LF (fst a) (fst c) (K a Ha) (K c Hc)) as F3. rewrite E3, E3' in F3. simpl in F3. inversion F3; subst o3'.
+      pose proof (LF (fst a) (fst b) (K a Ha) (K b Hb)) as F1. rewrite E1, E1' in F1. cbn [oflip option_map] in F1. injection F1 as F1; subst o1'.
+      pose proof (LF (fst b) (fst c) (K b Hb) (K c Hc)) as F2. rewrite E2, E2' in F2. cbn [oflip option_map] in F2. injection F2 as F2; subst o2'.
+      pose proof (LF (fst a) (fst c) (K a Ha) (K c Hc)) as F3. rewrite E3, E3' in F3. cbn [oflip option_map] in F3. injection F3 as F3; subst o3'.
       rewrite L1 in H1. rewrite L1' in H2. rewrite L2 in H3. rewrite L2' in H4. rewrite L3, L3'.
-      assert (Q1 : o1 = OEq) by (destruct o1; simpl in *; try discriminate; reflexivity).
-      assert (Q2 : o2 = OEq) by (destruct o2; simpl in *; try discriminate; reflexivity).
+      assert (Q1 : o1 = OEq) by (clear - H1 H2 O1; destruct o1; try discriminate; reflexivity).
+      assert (Q2 : o2 = OEq) by (clear - H3 H4 O2; destruct o2; try discriminate; reflexivity).
       subst o1 o2.
       assert (Q : oequal (cmp3 CompareLimit (fst a) (fst b)) = true) by (rewrite E1; reflexivity).
       pose proof (LC (fst a) (fst b) (fst c) (K a Ha) (K b Hb) (K c Hc) Q) as C3. rewrite E3, E2 in C3. inversion C3; subst o3.
@@ -173,9 +175,9 @@ Section WithHash.
     Variable srt : (item -> item -> bool) -> list item -> list item.
     Hypothesis srt_contract : stable_sort_contract item srt.
 
-    Lemma sorted_spec_lemma items reverse :
+    Lemma sorted_spec_lemma (items : list item) (reverse : bool) :
       keys_ok items -> all_comparable hs items = true ->
-      let lt := if reverse then rev_less hs else less hs in
+      let lt : item -> item -> bool := if reverse then rev_less hs else less hs in
       exists out,
         sorted_with hs srt items reverse = map snd out /\
         Permutation items out /\
@@ -194,11 +196,11 @@ Section WithHash.
   Lemma cmp_gt_lt x y : ok x = true -> ok y = true -> cmp GT x y = cmp LT y x.
   Proof.
     intros Fx Fy. destruct (cmp_spec hs x y Fx Fy) as [o [E A]]. destruct (cmp_spec hs y x Fy Fx) as [o' [E' A']].
-    pose proof (proj1 (proj2 (laws CompareLimit)) x y Fx Fy) as F. rewrite E, E' in F. simpl in F. inversion F; subst o'.
-    rewrite A, A'. destruct o; reflexivity.
+    pose proof (proj1 (proj2 (laws CompareLimit)) x y Fx Fy) as F. rewrite E, E' in F. cbn [oflip option_map] in F. injection F as F; subst o'.
+    rewrite A, A'. clear. destruct o; reflexivity.
   Qed.
 
-  Lemma minmax_loop_gloop ismax items : keys_ok items -> all_comparable hs items = true ->
+  Lemma minmax_loop_gloop (ismax : bool) (items : list item) : keys_ok items -> all_comparable hs items = true ->
     forall rest best, (forall x, In x (best :: rest) -> In x items) ->
       minmax_loop hs (mmop ismax) best rest = Ok (snd (gloop item (better ismax) best rest)).
   Proof.
@@ -216,10 +218,13 @@ Section WithHash.
     - apply IH. intros x [Hx|Hx]; [subst x; exact Hb|apply Dom; right; right; exact Hx].
   Qed.
 
-  Lemma minmax_spec_lemma ismax items :
+  Lemma minmax_spec_lemma (ismax : bool) (items : list item) :
     keys_ok items -> all_comparable hs items = true -> items <> [] ->
     exists b p,
-      minmax hs (mmop ismax) items = Some (Ok (snd b)) /      nth_error items p = Some b /      (forall x, In x items -> better ismax x b = false) /      (forall q x, (q < p)%nat -> nth_error items q = Some x -> better ismax b x = true).
+      minmax hs (mmop ismax) items = Some (Ok (snd b)) /\
+      nth_error items p = Some b /\
+      (forall x, In x items -> better ismax x b = false) /\
+      (forall q x, (q < p)%nat -> nth_error items q = Some x -> better ismax b x = true).
   Proof.
     intros K C NE. destruct items as [|b0 r]; [congruence|].
     assert (W : swo_on item (better ismax) (b0 :: r)).
